@@ -306,6 +306,7 @@ func runC13HolderPromoted(c *core.Case, k int) {
 	before := mon.PosOf(R.Node, "db")
 	committed, werr := false, error(nil)
 	for try := 0; try < 10 && !committed && werr == nil; try++ {
+		before = mon.PosOf(R.Node, "db") // (a rolled-back journal transaction may consume an ID of its own)
 		committed, werr = rw.txn(2)
 	}
 	hist = append(hist, fmt.Sprintf("transaction on the new primary: committed=%v err=%v", committed, werr))
